@@ -59,6 +59,7 @@ class H(explore.Harness):
         self.responder = {}  # cid -> list of pending (tag) for which a response has not been delivered
         self.partial = None  # (conn, rest bytes)
         self.closed_conns = set()
+        self.sent_at = {}
         self.rst_due = {}
         self.abandon_marks = []
         self.app_closed = False
@@ -107,12 +108,14 @@ class H(explore.Harness):
         for method, target, headers, body, raw in ipacc.parse_http_requests(c.buf):
             self.responder.setdefault(c.cid, []).append(target[2:])
             self.sent_on[target[2:]] = c.cid
+            self.sent_at[target[2:]] = self.loop.time()
 
     def _app_handler(self, sess, method, target, headers, body):
         if target.startswith("/r"):
             cid = next(cid for cid, s in self.rig.sessions.items() if s is sess)
             self.responder.setdefault(cid, []).append(target[2:])
             self.sent_on[target[2:]] = cid
+            self.sent_at[target[2:]] = self.loop.time()
             return None
         return 404, b"", None
 
@@ -168,6 +171,8 @@ class H(explore.Harness):
                 # the peer's RST reaches the kernel while the loop is busy: it is only seen at the next poll, i.e. after the handles that are
                 # ready now and those they schedule have run (until then write_eof() on that socket fails)
                 ev.append(f"rst-arrives:{c.cid}")
+        if self.p.get("ticks") and any(not t.done() for t in self.tasks.values()) and not self.loop.has_ready():
+            ev.append("tick:12")  # 12 s pass (timers falling due fire on the way)
         for k, t in self.tasks.items():
             if not t.done():
                 ev.append(f"cancel:{k}")
@@ -253,6 +258,8 @@ class H(explore.Harness):
             c = self.net.conns[int(arg)]
             c.peer_reset()
             self.partial = None if self.partial and self.partial[0] is c else self.partial
+        elif kind == "tick":
+            self.loop.advance(float(arg))
         elif kind == "rst-arrives":
             c = self.net.conns[int(arg)]
             c.peer_reset_arrives()
@@ -306,6 +313,11 @@ class H(explore.Harness):
                 waiting = [k for k, t in self.tasks.items() if not t.done() and str(k) not in self.sent_on]
                 if waiting and len(on_wire) < self.limit and self.conn.is_connected:
                     self.viol.append(("waiting-request-not-written-although-the-connection-has-a-free-slot", {"waiting": waiting, "on_wire": on_wire, "limit": self.limit, "cid": cur.cid}))
+            # (a'') the 30 s belong to the request: whatever else the accessory sends meanwhile (events), an unanswered request is over 30 s after
+            # it was written
+            for k, t in self.tasks.items():
+                if not t.done() and str(k) in self.sent_at and self.loop.time() > self.sent_at[str(k)] + 30.0 + 1e-6:
+                    self.viol.append(("unanswered-request-still-pending-after-its-30s", {"caller": k, "written_at": self.sent_at[str(k)], "now": self.loop.time()}))
             # (b) promptness: once a connection is abandoned (closed by the controller) or dropped, nothing written on it may still be waiting
             for k, t in self.tasks.items():
                 if t.done() or str(k) not in self.sent_on:
@@ -509,6 +521,8 @@ def run(ctx):
         dict(limit=2, callers=2, P=1, secure=False),
         dict(limit=3, callers=3, P=0 if quick else 1, secure=False),
         dict(limit=1, callers=2, P=0 if quick else 1, secure=True),
+        # time passes between the events (not only by jumping to the next timer): an accessory that never answers but keeps sending events
+        dict(limit=1, callers=1, P=0, secure=False, ticks=True, deep=True),
         # three callers behind one slot, across a loss of the connection and the reconnect that follows
         dict(limit=1, callers=3, P=0, secure=False, deep=True),
         # a reset that the kernel has but the loop has not seen yet, racing cancellations and the 30 s timer
@@ -521,7 +535,7 @@ def run(ctx):
     work = []
     for p in configs:
         p = dict(p, seed=ctx.seed)
-        d = depth - (1 if p["secure"] or p["callers"] == 3 else 0) + (2 if p.get("deep") else 0)
+        d = depth - (1 if p["secure"] or p["callers"] == 3 else 0) + ((2 if quick else 1) if p.get("deep") else 0)
         rs = explore.roots(lambda: H(p), 3)
         _determinism(p, rs[len(rs) // 2])
         _determinism(p, rs[-1])
